@@ -259,3 +259,41 @@ pub fn size_sweep(ctx: &Ctx, rep: &mut Reporter, prop_monitor: &str) {
         panic_violation(rep, SWEEP_CASE, "panic", &p, d);
     }
 }
+
+/// A small mapping whose strings occur in no generated mapping: written (into a failing
+/// sink) BEFORE the mapping under test, it shows whether a failed write of one mapping
+/// leaves anything behind that the next write of ANOTHER mapping picks up.
+pub const OTHER_MAPPING: &[u8] = b"org.other.Distinct -> q.z:\n# {\"id\":\"sourceFile\",\"fileName\":\"DistinctOther.kt\"}\n    1:2:void distinctiveOtherMethod(org.other.Param):30:31 -> zzq\n    3:3:void org.other.Inl.inlined():7:7 -> zzr\n    3:3:void caller():9 -> zzr\n";
+
+/// One long-lived, 8-byte aligned region per thread into which consecutive cache files are
+/// copied, so that DIFFERENT files are parsed at the SAME address one after the other (a
+/// recycled buffer, a buffer pool, an allocator handing back the block just freed). The
+/// slice handed out is valid until the next `load` on the same thread; callers drop every
+/// handle parsed from it before they load the next file.
+pub struct Arena {
+    words: std::cell::UnsafeCell<Vec<u64>>,
+}
+
+impl Arena {
+    pub fn new() -> Arena {
+        Arena { words: std::cell::UnsafeCell::new(vec![0u64; 1 << 16]) }
+    }
+    pub fn load<'x>(&self, bytes: &[u8]) -> &'x [u8] {
+        // SAFETY: single-threaded use per instance (thread-local); the region is only
+        // reallocated when a file does not fit, and no slice of an earlier load is used after.
+        unsafe {
+            let w = &mut *self.words.get();
+            let need = (bytes.len() + 7) / 8 + 1;
+            if w.len() < need {
+                *w = vec![0u64; need.next_power_of_two()];
+            }
+            let p = w.as_mut_ptr() as *mut u8;
+            std::ptr::copy_nonoverlapping(bytes.as_ptr(), p, bytes.len());
+            std::slice::from_raw_parts(p, bytes.len())
+        }
+    }
+}
+
+thread_local! {
+    pub static ARENA: Arena = Arena::new();
+}
